@@ -1,6 +1,8 @@
 import PbVerif.Model.JsonLex
 import PbVerif.Lemmas.JsonLexNumber
 import PbVerif.Lemmas.JsonLexString
+import PbVerif.Lemmas.JsonLexDecoder
+import PbVerif.Lemmas.JsonLexEncoder
 /-
 C21 — protojson speaks exactly JSON.
 
@@ -181,5 +183,123 @@ example : JString [0x22#8, 0x5c#8, 0x75#8, 0x64#8, 0x38#8, 0x30#8, 0x30#8, 0x22#
   refine ⟨?_, by rfl⟩
   exact JString.mk [0x5c#8, 0x75#8, 0x64#8, 0x38#8, 0x30#8, 0x30#8]
     (JChars.single (JChar.hex _ _ _ _ (by decide) (by decide) (by decide) (by decide)))
+
+/-! ## The token automaton (decode.go : Decoder.Read) -/
+
+/-- what the current `parseNumber` can make a Number token of -/
+theorem numAcc_iff (p : Bytes) : NumAcc p ↔ ∃ rest, NumberLoose p rest := Iff.rfl
+
+theorem numAcc_number {p : Bytes} (h : NumAcc p) (hd : EndsInDigit p) : Number p := by
+  obtain ⟨rest, m, i, f, e, rest, hm, hi, hf, he⟩ := h
+  rcases he with he | ⟨he, _⟩
+  · exact Number.mk m i f e hm hi hf he
+  · exact absurd hd (dangling_not_endsInDigit he)
+
+/- FULL STATEMENT (DESIGN.md §6 C21) — false of the current code because of finding 4
+   (`[1e,2e]` is read to EOF; the harness replays it against `encoding/json.Valid`):
+     theorem decoder_sound : decodeAll b = .ok toks → JsonText b
+   and, independently of finding 4, false for the empty input: `decodeAll [] = .ok []`
+   (the EOF case of `Read` only looks at the open stack; protojson.Unmarshal rejects the EOF token
+   it gets in this case, which the harness checks).                                              -/
+
+/-- **decoder_sound (partial).**  If a fresh `Decoder` reads `b` token by token up to EOF without
+error, then either `b` consists of whitespace only (and no token was read), or `b` splits into
+whitespace-separated tokens `ts` that derive from the RFC 8259 `value` grammar, every string token
+being an RFC string and every number token an RFC number *or* a number with a dangling exponent;
+if all number tokens end in a digit, `b` is an RFC 8259 JSON text. -/
+theorem decoder_sound_partial (b : Bytes) (toks : List Token) (h : decodeAll b = .ok toks) :
+    AllWs b ∨ ∃ ts, LexesTo NumAcc JString b ts ∧ Value ts ∧
+      ((∀ p, Tok.number p ∈ ts → EndsInDigit p) → JsonText b) := by
+  rcases decodeAllG_sound numSound_current b toks h with hw | ⟨ts, hl, hv⟩
+  · exact Or.inl hw
+  · refine Or.inr ⟨ts, hl.mono (fun _ h => h) (fun _ h => h.jstring), hv, fun hd => ⟨ts, ?_, hv⟩⟩
+    clear hv h
+    induction hl with
+    | nil w hw => exact LexesTo.nil w hw
+    | cons w b rest t ts hw hsp _ ih =>
+      refine LexesTo.cons w b rest t ts hw ?_ (ih (fun p hp => hd p (List.mem_cons_of_mem _ hp)))
+      cases hsp with
+      | number b hb => exact Spells.number b (numAcc_number hb (hd b (List.mem_cons_self ..)))
+      | string b hb => exact Spells.string b hb.jstring
+      | null => exact Spells.null
+      | true_ => exact Spells.true_
+      | false_ => exact Spells.false_
+      | lbrace => exact Spells.lbrace
+      | rbrace => exact Spells.rbrace
+      | lbrack => exact Spells.lbrack
+      | rbrack => exact Spells.rbrack
+      | comma => exact Spells.comma
+      | colon => exact Spells.colon
+
+/-- the empty input is read to EOF without error (and without a token) -/
+theorem decoder_accepts_empty : decodeAll [] = .ok [] := by rfl
+
+/-- **decoder_sound once the repair is applied**: everything the decoder reads to EOF is an
+RFC 8259 JSON text, or whitespace only. -/
+theorem decoder_sound_fixed (b : Bytes) (toks : List Token) (h : decodeAllFixed b = .ok toks) :
+    AllWs b ∨ JsonText b := by
+  rcases decodeAllG_sound numSound_fixed b toks h with hw | ht
+  · exact Or.inl hw
+  · exact Or.inr (ht.mono (fun _ h => h) (fun _ h => h.jstring))
+
+/-! ## The Encoder (encode.go) -/
+
+/-- `WriteString` fails (errInvalidUTF8) exactly on input that is not valid UTF-8 (RFC 3629). -/
+theorem writeString_ok_iff (s : Bytes) : (appendString [] s).2 = true ↔ Utf8Chars s := by
+  constructor
+  · intro h
+    have : appendString [] s = ((appendString [] s).1, true) := by rw [← h]
+    obtain ⟨_, _, _, hu⟩ := appendString_sound s _ this
+    exact hu
+  · exact appendString_complete s
+
+/-- **Every string literal the Encoder emits is in the RFC 8259 grammar and parses back to the
+original**, whatever follows it: for all valid UTF-8 `s`, `appendString` writes `lit` with
+`JString lit` and `parseString (lit ++ rest) = (s, len lit)`. -/
+theorem writeString_roundtrip (s lit : Bytes) (h : appendString [] s = (lit, true)) :
+    JString lit ∧ ∀ rest, parseString (lit ++ rest) = .ok (s, lit.length) := by
+  obtain ⟨esc, rfl, hesc, _⟩ := appendString_sound s lit h
+  refine ⟨JString.mk esc hesc.jchars, fun rest => ?_⟩
+  exact (parseString_exact _ _ _).2 ⟨esc, rest, by simp, by simp, hesc⟩
+
+example : appendString [] [0x61#8, 0x22#8, 0x0a#8, 0x01#8, 0xc3#8, 0xa9#8] =
+    ([0x22#8, 0x61#8, 0x5c#8, 0x22#8, 0x5c#8, 0x6e#8, 0x5c#8, 0x75#8, 0x30#8, 0x30#8, 0x30#8, 0x31#8, 0xc3#8, 0xa9#8,
+      0x22#8], true) := by decide
+
+/-- **Structural output is in the grammar, whatever the indent.**  For every JSON value tree `v`
+whose strings/names are valid UTF-8 and whose number literals are RFC numbers, every indent made of
+whitespace (`NewEncoder` admits spaces and tabs; the empty indent is the compact form) and either
+value of `detrand.Bool()`, the call sequence `opsOf v` runs without error or panic and its output
+splits into whitespace and exactly the tokens `toksOf v`, which derive from `value`.
+`toksOf v` does not depend on `indent`/`rnd`: Multiline/Indent output and compact output are the
+same token sequence — the same JSON value — with different insignificant whitespace. -/
+theorem encoder_output (rnd : Bool) (indent : Bytes) (hind : AllWs indent) (v : JVal) (hv : v.WF) :
+    ∃ out, encodeValue rnd indent v = some (out, true) ∧
+      LexesTo Number JString out (toksOf v) ∧ Value (toksOf v) := by
+  obtain ⟨e', seg, hrun, hout, hseg, _, _, _⟩ :=
+    enc_val rnd v hv { indent := indent } ⟨hind, AllWs.nil⟩
+  refine ⟨e'.out, by simp [encodeValue, hrun], ?_, toksOf_value v⟩
+  have := hseg.lexes
+  simpa [hout, sepToks, EKind.isValueEnd] using this
+
+theorem encoder_valid (rnd : Bool) (indent : Bytes) (hind : AllWs indent) (v : JVal) (hv : v.WF) :
+    ∃ out, encodeValue rnd indent v = some (out, true) ∧ JsonText out := by
+  obtain ⟨out, h1, h2, h3⟩ := encoder_output rnd indent hind v hv
+  exact ⟨out, h1, toksOf v, h2, h3⟩
+
+/-- whitespace-insensitivity, spelled out for two settings -/
+theorem encoder_indent_insensitive (rnd1 rnd2 : Bool) (ind1 ind2 : Bytes) (h1 : AllWs ind1) (h2 : AllWs ind2)
+    (v : JVal) (hv : v.WF) :
+    ∃ out1 out2 ts, encodeValue rnd1 ind1 v = some (out1, true) ∧ encodeValue rnd2 ind2 v = some (out2, true) ∧
+      LexesTo Number JString out1 ts ∧ LexesTo Number JString out2 ts ∧ Value ts := by
+  obtain ⟨o1, a1, b1, c1⟩ := encoder_output rnd1 ind1 h1 v hv
+  obtain ⟨o2, a2, b2, _⟩ := encoder_output rnd2 ind2 h2 v hv
+  exact ⟨o1, o2, toksOf v, a1, a2, b1, b2, c1⟩
+
+example : (JVal.obj (.cons [0x61#8] (.arr (.cons (.num [0x31#8]) (.cons .null .nil))) .nil)).WF := by
+  refine ⟨?_, ⟨?_, trivial, trivial⟩, trivial⟩
+  · exact Utf8Chars.cons [0x61#8] [] (Utf8Char.one _ (by decide)) Utf8Chars.nil
+  · exact Number.mk [] [0x31#8] [] [] MinusOpt.none (IntPart.nonzero _ [] (by decide) (by intro d hd; cases hd))
+      FracOpt.none ExpOpt.none
 
 end C21
